@@ -95,6 +95,30 @@ def raccept (w : Wiring) (ls : List RLabel) : RVerdict :=
       else go (k + 1) next rest (max maxF cl.length)
   go 0 [(RegSt.init, [])] ls 0
 
+/-- depth-first search for effect points that make the sequential specification accept the history
+    (returns the witness, or how far the best attempt got) -/
+partial def specSearch (ls : Array RLabel) (pos : Nat) (st : C08St) (acc : List RLabel) (fuel : Nat) :
+    Option (List RLabel) × Nat :=
+  if fuel == 0 then (none, pos) else
+  match ls[pos]? with
+  | none => (some acc.reverse, pos)
+  | some l =>
+    let direct := match monC08.step st l with
+      | some st' => specSearch ls (pos + 1) st' (l :: acc) (fuel - 1)
+      | none => (none, pos)
+    match direct with
+    | (some w, d) => (some w, d)
+    | (none, d) =>
+      st.pend.foldl (fun (best : Option (List RLabel) × Nat) p =>
+        match best with
+        | (some w, d') => (some w, d')
+        | (none, d') =>
+          match monC08.step st (.ract p.1) with
+          | some st' =>
+            let r := specSearch ls pos st' (RLabel.ract p.1 :: acc) (fuel / 2)
+            (r.1, max d' r.2)
+          | none => (none, d')) (none, d)
+
 def reprR (l : RLabel) : String := (toString (repr l)).replace "\n" " "
 
 def processReg (w : Wiring) (header : String) (lines : List String) (showWitness : Bool) : String :=
@@ -110,6 +134,11 @@ def processReg (w : Wiring) (header : String) (lines : List String) (showWitness
       | some k => out ++ s!"monitor[C08]=violation@{k}:{reprR (wit.getD k (.term 0))} "
     if showWitness then out ++ "\n  witness: " ++ " ; ".intercalate (wit.map reprR) else out
   | .rejected k l f =>
-    out ++ s!"actor=0 accept=rejected@{k}:{(l.map reprR).getD "end"}:frontier={f} "
+    let out := out ++ s!"actor=0 accept=rejected@{k}:{(l.map reprR).getD "end"}:frontier={f} "
+    -- is the history linearizable w.r.t. the specification itself (no lock, no wiring)?
+    match specSearch ls.toArray 0 monC08.init [] 200000 with
+    | (some _, _) => out        -- the specification can explain it: only the correspondence is broken
+    | (none, deepest) =>
+      out ++ s!"monitor[C08]=violation@{deepest}:not-linearizable:{((ls.toArray[deepest]?).map reprR).getD "end"} "
 
 end Hannibal.Driver
